@@ -130,6 +130,51 @@ pub open spec fn exp_defaults_ok(w1: Seq<Factor>, w: Seq<Factor>, j: int) -> boo
     &&& (sup is Some ==> defaulted(w1, w, c, s, Dest::A_RED, Step::A, sup) && defaulted(w1, w, c, s, Dest::A_NEPB, Step::A, sup))
     &&& defaulted(w1, w, c, s, Dest::A_RED, Step::B, grid) && defaulted(w1, w, c, s, Dest::A_NEPB, Step::B, grid)
 }
+/// completeness for one of the three carriers that can be produced on site: its on-site supply factor, its grid supply factor and its
+/// four export factors (steps A and B, to the grid and to non-EPB uses) are all present
+pub open spec fn exp_complete(w: Seq<Factor>, j: int) -> bool {
+    let (c, s) = exp_pair(j);
+    &&& find_spec(w, c, s, Dest::SUMINISTRO, Step::A) is Some && find_spec(w, c, Source::RED, Dest::SUMINISTRO, Step::A) is Some
+    &&& find_spec(w, c, s, Dest::A_RED, Step::A) is Some && find_spec(w, c, s, Dest::A_NEPB, Step::A) is Some
+    &&& find_spec(w, c, s, Dest::A_RED, Step::B) is Some && find_spec(w, c, s, Dest::A_NEPB, Step::B) is Some
+}
+/// after the forced factors have been set: the on-site supply factor of ambient heat and solar thermal energy is there, and that of
+/// electricity whenever electricity has a grid supply factor (i.e. whenever the carrier is in the set)
+pub open spec fn sup_present(w1: Seq<Factor>) -> bool {
+    &&& find_spec(w1, Carrier::EAMBIENTE, Source::INSITU, Dest::SUMINISTRO, Step::A) is Some
+    &&& find_spec(w1, Carrier::TERMOSOLAR, Source::INSITU, Dest::SUMINISTRO, Step::A) is Some
+    &&& (find_spec(w1, Carrier::ELECTRICIDAD, Source::RED, Dest::SUMINISTRO, Step::A) is Some ==> find_spec(w1, Carrier::ELECTRICIDAD, Source::INSITU, Dest::SUMINISTRO, Step::A) is Some)
+}
+pub proof fn lemma_exp_complete(w1: Seq<Factor>, w: Seq<Factor>, j: int)
+    requires 0 <= j < 3, sup_present(w1), kept(w1, w), exp_defaults_ok(w1, w, j),
+    ensures exp_complete(w, j),
+{
+    let (c, s) = exp_pair(j);
+    assert(find_spec(w1, c, Source::RED, Dest::SUMINISTRO, Step::A) is Some);
+    assert(find_spec(w1, c, s, Dest::SUMINISTRO, Step::A) is Some);
+}
+pub proof fn lemma_find_some_carrier(w: Seq<Factor>, c: Carrier, s: Source, d: Dest, st: Step)
+    ensures find_spec(w, c, s, d, st) is Some ==> carrier_in(w, c),
+    decreases w.len(),
+{
+    if w.len() > 0 {
+        if fkey(w[0], c, s, d, st) { assert(w[0].carrier == c); }
+        else {
+            lemma_find_some_carrier(w.drop_first(), c, s, d, st);
+            if find_spec(w, c, s, d, st) is Some {
+                let j = choose|j: int| 0 <= j < w.drop_first().len() && (#[trigger] w.drop_first()[j]).carrier == c;
+                assert(w[j + 1].carrier == c);
+            }
+        }
+    }
+}
+/// the only keys the preparation can add: the forced ones, the grid factors of the two district networks, and the export factors of
+/// the three carriers that can be produced on site
+pub open spec fn added_key(c: Carrier, s: Source, d: Dest, st: Step) -> bool {
+    ||| forced_key(c, s, d, st)
+    ||| ((c == Carrier::RED1 || c == Carrier::RED2) && s == Source::RED && d == Dest::SUMINISTRO && st == Step::A)
+    ||| (exists|j: int| 0 <= j < 3 && c == exp_pair(j).0 && s == exp_pair(j).1 && (d == Dest::A_RED || d == Dest::A_NEPB))
+}
 /// nothing that exists is ever changed by the `ensure` phase
 pub open spec fn kept(w1: Seq<Factor>, w: Seq<Factor>) -> bool {
     forall|c: Carrier, s: Source, d: Dest, st: Step| (#[trigger] find_spec(w1, c, s, d, st)) is Some ==> find_spec(w, c, s, d, st) == find_spec(w1, c, s, d, st)
